@@ -251,7 +251,31 @@ static void runRewireOpt(uint64_t k, Rng &rng, std::ostream &out) {
 				op.ranges.push_back({.subwidth = rng.chance(1, 8) ? 0 : 1 + rng.below(rng.chance(1, 5) ? 70 : 4), .source = t, .inputIdx = 0, .inputOffset = 0});
 			}
 		}
+		bool outBool = false;
+		if (nin > 0 && inConn[0] >= 0 && rng.chance(1, 4)) {
+			// an identity tiling of input 0 (1..3 consecutive ranges), sometimes perturbed: what removeNoOps looks for
+			op.ranges.clear();
+			size_t w0 = srcs[conns[inConn[0]].src].width, off = 0, parts = 1 + rng.below(3);
+			for (size_t pi = 0; pi < parts; pi++) {
+				size_t sub = pi + 1 == parts ? w0 - off : rng.below(w0 - off + 1);
+				op.ranges.push_back({.subwidth = sub, .source = hlim::Node_Rewire::OutputRange::INPUT, .inputIdx = 0, .inputOffset = off});
+				off += sub;
+			}
+			unsigned pert = (unsigned) rng.below(8);
+			if (pert == 0 && !op.ranges.empty()) op.ranges.back().subwidth += 1;                       // one bit too many
+			else if (pert == 1 && op.ranges.back().subwidth > 0) op.ranges.back().subwidth -= 1;       // one bit short
+			else if (pert == 2 && op.ranges.size() > 1) std::swap(op.ranges[0], op.ranges[1]);         // order
+			else if (pert == 3 && nin > 1) op.ranges.front().inputIdx = 1;                             // other input
+			else if (pert == 4) op.ranges.push_back({.subwidth = 1, .source = hlim::Node_Rewire::OutputRange::CONST_ZERO, .inputIdx = 0, .inputOffset = 0});
+			else if (pert == 5) outBool = true;                                                        // output declared BOOL
+		}
 		rew->setOp(op);
+		if (outBool) rew->changeOutputType({.type = hlim::ConnectionType::BOOL});
+		// reading outside an input is undefined behaviour in the simulator; optimize() and isNoOp() do not look at the widths, but keep the operation legal
+		for (auto &rg : rew->getOp().ranges)
+			if (rg.source == hlim::Node_Rewire::OutputRange::INPUT && rg.inputIdx < nin && inConn[rg.inputIdx] >= 0 && rg.subwidth > 0 &&
+				rg.inputOffset + rg.subwidth > srcs[conns[inConn[rg.inputIdx]].src].width) { out << "# case " << k << "rw skipped: range outside its input\n"; return; }
+		bool implNoOp = rew->isNoOp();
 		// identities of the directly connected drivers
 		std::map<hlim::NodePort, size_t> ids;
 		auto idOf = [&](hlim::NodePort p) { auto it = ids.find(p); if (it != ids.end()) return it->second; size_t id = ids.size(); ids[p] = id; return id; };
@@ -260,6 +284,7 @@ static void runRewireOpt(uint64_t k, Rng &rng, std::ostream &out) {
 		o << "rwd "; if (nin == 0) o << '.'; for (size_t i = 0; i < nin; i++) { if (i) o << ','; if (inConn[i] < 0) o << '-'; else o << idOf(conns[inConn[i]].port); } o << '\n';
 		for (size_t i = 0; i < nin; i++) if (inConn[i] >= 0) o << "rwv " << idOf(conns[inConn[i]].port) << ' ' << srcs[conns[inConn[i]].src].value << '\n';
 		o << "rwr " << rangesToString(rew->getOp()) << '\n';
+		o << "rwn " << implNoOp << ' ' << nin << ' ' << (nin > 0 && inConn[0] >= 0 ? std::to_string(srcs[conns[inConn[0]].src].width) : std::string("-")) << ' ' << (outBool ? 0 : 1) << '\n';
 		rew->optimize();
 		o << "rwod "; if (rew->getNumInputPorts() == 0) o << '.';
 		for (size_t i = 0; i < rew->getNumInputPorts(); i++) {
